@@ -9,14 +9,22 @@ open SigModel.Tlv SigModel.Cmp SigModel.Lemmas.C01
 
 /-- The guard of `implCmp_eq_spec_partial`, on the stored value, the operator and the literal enclosure.  It
 excludes exactly the classes refuted by the counterexample theorems (code after the C02 repairs):
-  F  a stored numeric STRING (the kernel treats it as "not a number");
+  F  (gone with repair c02-4: a stored numeric STRING is the float64 it reads as, so it falls under C)
   D  an unsigned record against a signed (negative) integer literal (compared with `uint64(negative)`);
   B  an integer record that `float64(·)` does not represent exactly, against a float-typed literal;
-  C  a float record against an integer literal that `float64(·)` does not represent exactly.
+  C  a float record — or a string that reads as a number — against an integer literal that `float64(·)` does not
+     represent exactly.
 (B and C hold for every |n| ≤ 2^53.) -/
 def cmpGuardQ (rnd : Rat → Rat) (v : SVal) (_op : Op) (q : Lit) : Bool :=
   match v with
-  | .str s => (numOfStr? s).isNone
+  | .str s =>
+    match numOfStr? s with
+    | none => true
+    | some _ =>
+      match q.dtype with
+      | .signed => decide (rnd (q.signed : Rat) = (q.signed : Rat))
+      | .unsigned => decide (rnd (q.unsigned : Rat) = (q.unsigned : Rat))
+      | _ => true
   | .bool _ => true
   | .backfill => true
   | .int i =>
@@ -40,13 +48,14 @@ theorem wrapS64_small (u : Nat) (h : (u : Int) < two63) : wrapS64 (u : Int) = (u
 theorem wrapS64_big (u : Nat) (h1 : two63 ≤ (u : Int)) (h2 : (u : Int) < two64) : wrapS64 (u : Int) < 0 := by
   unfold wrapS64; unfold two64 at h2 ⊢; unfold two63 at h1 ⊢; omega
 
-theorem specCmp_nonnum (v : SVal) (op : Op) (q : Lit) (h : v.num? = none) : specCmp v op q = (op == .ne) := by
+theorem specCmp_nonnum (rnd : Rat → Rat) (v : SVal) (op : Op) (q : Lit) (h : v.num? rnd = none) :
+    specCmp rnd v op q = (op == .ne) := by
   simp [specCmp, h]
 
 /-- the comparison against ANY well-shaped numeric literal enclosure -/
 theorem impl_eq_spec_q (rnd : Rat → Rat) (_hr : RndOk rnd) (ci : Bool) (v : SVal) (hv : v.wf) (op : Op) (q : Lit)
     (hq : LitOk rnd q) (hg : cmpGuardQ rnd v op q = true) :
-    implCmp rnd ci v.enc op q = .ok (specCmp v op q) := by
+    implCmp rnd ci v.enc op q = .ok (specCmp rnd v op q) := by
   have hnum : implCmp rnd ci v.enc op q = fopOnNumber rnd v.enc q op := by
     unfold LitOk at hq
     unfold implCmp
@@ -55,10 +64,20 @@ theorem impl_eq_spec_q (rnd : Rat → Rat) (_hr : RndOk rnd) (ci : Bool) (v : SV
   unfold SVal.wf SVal.wfb at hv
   cases v with
   | str s =>
-    simp [cmpGuardQ] at hg
-    simp [fopOnNumber, getNum_str, specCmp, SVal.num?, hg]
-  | bool b => simp [fopOnNumber, getNum_bool, specCmp, SVal.num?]
-  | backfill => simp [fopOnNumber, getNum_backfill, specCmp, SVal.num?]
+    simp at hv
+    simp only [fopOnNumber, getNum_str, strRecNum_str rnd s hv]
+    cases hn : numOfStr? s with
+    | none => simp [specCmp, SVal.num?, hn]
+    | some a =>
+      -- the record is the float64 `rnd a`: as for a float record
+      simp only [cmpGuardQ, hn] at hg
+      unfold LitOk at hq
+      cases hd : q.dtype <;> simp [hd] at hq <;> simp [hd] at hg
+      · simp [compareNumberDte, cmpFloat, specCmp, SVal.num?, hn, Lit.num?, hd, hq.1, hg]
+      · simp [compareNumberDte, cmpFloat, specCmp, SVal.num?, hn, Lit.num?, hd, hq.1, hg]
+      · simp [compareNumberDte, cmpFloat, specCmp, SVal.num?, hn, Lit.num?, hd]
+  | bool b => simp [fopOnNumber, getNum_bool, strRecNum_bool, specCmp, SVal.num?]
+  | backfill => simp [fopOnNumber, getNum_backfill, strRecNum_backfill, specCmp, SVal.num?]
   | int i =>
     simp at hv
     simp only [fopOnNumber, getNum_int i hv.1 hv.2]
